@@ -384,6 +384,10 @@ def abstract(cyc: dict, lifecycle: str) -> tuple[list, dict] | None:
             "P": {k: v for k, v in p["P_after"].items() if k in top},
             "purged_subs": sorted(k for k, v in p["P_after"].items() if k not in top and v is None),
             "delays": sorted(round(d * 64) for d in p.get("delays", []))}
+    # for the converse direction (what the model purges must be gone in the implementation, unless a
+    # sub-pass of this very pass wrote it again): kept aside, resolved once the model has answered
+    impl["_after_all"] = dict(p["P_after"])
+    impl["_sub_written"] = sorted({k for sp in (p.get("subpasses") or []) for k in sp.get("known", [])})
     return req, impl
 
 
@@ -478,7 +482,11 @@ def run(ctx: Ctx) -> None:
             ctx.compare("C02 sub-handler pass", impl, model, wh)
             continue
         top = set(req[1]["owned"])
-        model = {"invoked": m["invoked"], "P": {k: v for k, v in m["P"].items() if k in top},
+        after_all, sub_written = impl.pop("_after_all"), set(impl.pop("_sub_written"))
+        model_purged = [k for k in req[1]["universe"] if k not in top and req[1]["P"].get(k) is not None
+                        and m["P"].get(k) is None and k not in sub_written]
+        impl["unpurged_subs"] = sorted(k for k in model_purged if after_all.get(k) is not None)
+        model = {"invoked": m["invoked"], "P": {k: v for k, v in m["P"].items() if k in top}, "unpurged_subs": [],
                  "purged_subs": impl["purged_subs"] if all(m["P"].get(k) is None for k in impl["purged_subs"]) else
                  sorted(k for k in impl["purged_subs"] if m["P"].get(k) is None),
                  "delays": sorted(m["delays"])}
